@@ -51,10 +51,12 @@ import (
 
 // max_read_depth for the engine: the default (5) would cut most chains; with
 // one object per namespace a check can reach at most 3*4 distinct
-// (namespace, relation) nodes, so 12 levels see every lookup that any depth
-// would see, while two self-loop tuples under two traversals already cost
-// 2^depth sub-checks (50 would not terminate in practice).
-const c11Depth = 12
+// (namespace, relation) nodes and a tuple set has <= 3 tuples (each hop over a
+// tuple costs one level, computed subject sets cost none), so 8 levels reach
+// every lookup that <= 3 tuples can lead to, while two self-loop tuples under
+// two traversals already cost 2^depth sub-checks (50 would not terminate in
+// practice).
+const c11Depth = 8
 
 var (
 	c11NS    = []string{"A", "B", "C"}
@@ -281,9 +283,48 @@ func isCanonical(p *Prog) bool {
 	return true
 }
 
-// hasIdleNamespace: a namespace without declarations that no type mentions
-// (the program behaves like the one without it; that one is enumerated too).
+// hasIdlePart: a namespace without declarations that no type mentions, or a
+// relation that no permission leaf and no SubjectSet type mentions. The
+// program then behaves like the smaller program without that part on every
+// other query (that program is enumerated too), and queries on an unmentioned
+// relation cannot reach a rewrite.
 func hasIdleNamespace(p *Prog) bool {
+	for _, ns := range p.NS {
+		for _, r := range ns.Rels {
+			mentioned := false
+			for _, pm := range ns.Perms {
+				var as []*Expr
+				pm.Expr.atoms(&as)
+				for _, a := range as {
+					if a.Kind != LPermits && a.Rel == r.Name {
+						mentioned = true
+					}
+				}
+			}
+			for _, other := range p.NS {
+				for _, r2 := range other.Rels {
+					for _, t := range r2.Types {
+						if t.NS == ns.Name && t.Rel == r.Name {
+							mentioned = true
+						}
+					}
+				}
+				// p.related.<r>.includes(...) inside a traverse that can land here
+				for _, pm := range other.Perms {
+					var as []*Expr
+					pm.Expr.atoms(&as)
+					for _, a := range as {
+						if a.Kind == LTravRelated && a.Via == r.Name {
+							mentioned = true
+						}
+					}
+				}
+			}
+			if !mentioned {
+				return true
+			}
+		}
+	}
 	if len(p.NS) == 1 {
 		return false
 	}
@@ -1025,10 +1066,10 @@ func TestC11(t *testing.T) {
 		"conforming tuple = (N:o, r, subject set X:o#m) where X[] (m empty) or SubjectSet<X,m> is one of r's declared types; one object per namespace; query subjects are the subject sets occurring in the tuple set plus one fresh subject id",
 		"schema error = Result.Err carrying herodot ErrBadRequest (\"relation ... does not exist\" / malformed), ErrNotFound, or \"not implemented\"; any other error is counted (other_errors) and not judged; allowed/denied is never judged here",
 		"accepted programs in which `this.permits.X(ctx)` leaves under '!' or '&&' form a cycle among the permissions of one namespace are not run: keto builds those checks eagerly without consuming depth and never returns (counted as programs_not_run_eager_permission_cycle; this is a termination defect, not a schema error)",
-		fmt.Sprintf("limit.max_read_depth = %d (with one object per namespace at most 12 distinct (namespace, relation) nodes are reachable; a larger limit only multiplies revisits)", c11Depth),
+		fmt.Sprintf("limit.max_read_depth = %d (a tuple set has <= 3 tuples and only a hop over a tuple consumes depth; a larger limit only multiplies revisits of the same nodes: two self-loop tuples under two traversals cost 2^depth sub-checks)", c11Depth),
 		"the engine runs free; each (program, mode, tuple set, query) is run once; whether a schema error surfaces could depend on short-circuiting for some operand orders, so the check is conservative (may miss, cannot invent)",
 		"converse: 'pointing at the offending token' is read as: some error lies on the token's line and its column span touches the token, with one column of slack on both sides (0- vs 1-based columns are not distinguished)",
-		"programs that differ only by a renaming of namespaces, or contain a namespace with no declarations that no type mentions, are run through the engine once (one representative); the parser part runs on every program",
+		"programs that differ only by a renaming of namespaces are run through the engine once (one representative); programs with a namespace without declarations that no type mentions, or with a relation that no permission leaf and no SubjectSet type mentions, are not run through the engine (the smaller program without that part is enumerated); the parser part runs on every program",
 		"relations are referenced only through the documented forms: `p.related.x.includes` for relation names, `p.permits.x(ctx)` for permission names",
 	)
 	run.Finish(map[string]any{
